@@ -303,7 +303,32 @@ func edgeDominates(d, s, b *ssa.BasicBlock) bool {
 }
 
 // guardsOf lists the branch outcomes implied by reaching block b.
+// guardsBusy: blocks whose guards are being computed (a loop-carried boolean such as
+// `seen = seen || cond` leads back to the block it is tested in; the inner request gets the plain
+// branch outcomes and no expansion).
+var guardsBusy = map[*ssa.BasicBlock]bool{}
+
 func guardsOf(b *ssa.BasicBlock) []Guard {
+	out := plainGuardsOf(b)
+	if guardsBusy[b] || len(guardsBusy) > 24 {
+		return out
+	}
+	guardsBusy[b] = true
+	defer delete(guardsBusy, b)
+	// a condition that is itself the value of `a && b` (positive) or `a || b` (negative), e.g. the
+	// case expression of a tagless switch, stands for its conjuncts
+	out = expandBoolGuards(out, 0)
+	// a transparent helper runs under the conditions of its call site (transparent.go)
+	if fn := b.Parent(); isHelper(fn) {
+		if site := helperCallSite(fn); site != nil && site.Block() != nil && site.Parent() != fn {
+			out = append(out, guardsOf(site.Block())...)
+		}
+	}
+	return out
+}
+
+// plainGuardsOf: the branch outcomes of b's own function that dominate b.
+func plainGuardsOf(b *ssa.BasicBlock) []Guard {
 	var out []Guard
 	for d := b.Idom(); d != nil; d = d.Idom() {
 		if len(d.Instrs) == 0 {
@@ -325,15 +350,6 @@ func guardsOf(b *ssa.BasicBlock) []Guard {
 			out = append(out, flattenCond(iff.Cond, false, iff)...)
 		}
 	}
-	// a condition that is itself the value of `a && b` (positive) or `a || b` (negative), e.g. the
-	// case expression of a tagless switch, stands for its conjuncts
-	out = expandBoolGuards(out, 0)
-	// a transparent helper runs under the conditions of its call site (transparent.go)
-	if fn := b.Parent(); isHelper(fn) {
-		if site := helperCallSite(fn); site != nil && site.Block() != nil && site.Parent() != fn {
-			out = append(out, guardsOf(site.Block())...)
-		}
-	}
 	return out
 }
 
@@ -345,12 +361,55 @@ func expandBoolGuards(gs []Guard, depth int) []Guard {
 	changed := false
 	for _, g := range gs {
 		ph, isPhi := g.Cond.(*ssa.Phi)
-		if !isPhi {
-			out = append(out, g)
-			continue
-		}
 		var alts [][]Guard
 		var ok bool
+		if !isPhi {
+			// a boolean predicate helper: the answer stands for the conditions under which the
+			// helper gives it (when there is exactly one way to give it)
+			hc, isCall := g.Cond.(*ssa.Call)
+			if !isCall || depth > 1 {
+				out = append(out, g)
+				continue
+			}
+			h := rawStaticCallee(hc)
+			if h == nil || !isHelper(h) || h.Signature.Results().Len() != 1 {
+				out = append(out, g)
+				continue
+			}
+			if bt, isB := h.Signature.Results().At(0).Type().Underlying().(*types.Basic); !isB || bt.Kind() != types.Bool {
+				out = append(out, g)
+				continue
+			}
+			h = originFn(h)
+			ht.ctx[h] = hc
+			ok = true
+			for _, ret := range plainReturnsOf(h) {
+				var sub [][]Guard
+				var okS bool
+				if g.Pol {
+					sub, okS = truthAlts(ret.Results[0], 0)
+				} else {
+					sub, okS = falseAlts(ret.Results[0], 0)
+				}
+				if !okS {
+					ok = false
+					break
+				}
+				for _, a := range sub {
+					alts = append(alts, append(append([]Guard{}, plainGuardsOf(ret.Block())...), a...))
+				}
+			}
+			if !ok || len(alts) != 1 {
+				out = append(out, g)
+				continue
+			}
+			changed = true
+			out = append(out, g)
+			for _, a := range alts[0] {
+				out = append(out, a)
+			}
+			continue
+		}
 		if g.Pol {
 			alts, ok = truthAlts(ph, 0)
 		} else {
